@@ -29,8 +29,11 @@ const LANGS: [&str; 6] = ["plaintext", "markdown", "plaintext", "rust", "html", 
 fn text_for(lang: &str, id: &str) -> String {
     let t = text_of(id);
     if lang == "html" { return format!("<html><body><h1>{}</h1>\n<p title=\"zzattr\">{} again</p></body></html>\n", t, t); }
-    if lang == "lhaskell" { return format!("{}\n\n> foo_barq :: Int\n> foo_barq = 1\n\nHere foo_barq is used {}\n", t, t); }
-    if lang == "rust" { format!("// {} and foo_barq too\nfn foo_barq(zq_arg: u8) -> u8 {{ zq_arg }}\n// zq_arg again\n", t.replace('\n', "\n// ")) } else { t }
+    // the code of texts A/C defines foo_barq, that of B/D foo_bazq; the prose always mentions both: whichever is
+    // not defined in the current text is a misspelling (identifiers of earlier versions must not linger)
+    let ident = if id == "B" || id == "D" { "foo_bazq" } else { "foo_barq" };
+    if lang == "lhaskell" { return format!("{}\n\n> {ident} :: Int\n> {ident} = 1\n\nHere foo_barq and foo_bazq are used {}\n", t, t); }
+    if lang == "rust" { format!("// {} and foo_barq or foo_bazq too\nfn {ident}(zq_arg: u8) -> u8 {{ zq_arg }}\n// zq_arg again\n", t.replace('\n', "\n// ")) } else { t }
 }
 fn diag_digest(diags: &Value) -> String {
     let mut v: Vec<String> = diags.as_array().map(|a| a.iter().map(|d| format!("{}|{}", d["range"], d["message"])).collect()).unwrap_or_default();
